@@ -284,7 +284,7 @@ class LTSSMController(Elaboratable):
         #
         # Main Link Training and Status State Machine
         #
-        with m.FSM(domain="ss"):
+        with m.FSM(domain="ss") as fsm:
 
             # Rx.Detect.Reset -- we've just started link bringup post-reset; and are ready to
             # perform any necessary link configuration.
@@ -765,5 +765,16 @@ class LTSSMController(Elaboratable):
                     self.tx_electrical_idle    .eq(1),
                     self.engage_terminations   .eq(0)
                 ]
+
+
+        # A warm (or power-on) reset takes priority over every other transition of every state: placed after
+        # the FSM, this overrides whatever `m.next` the current state selected (handle_warm_resets() alone is
+        # overridden by any later transition of the same state, and is not called in every state).
+        with m.If(self.in_usb_reset):
+            m.d.ss += [
+                fsm.state               .eq(fsm.encoding["Rx.Detect.Reset"]),
+                cycles_in_state         .eq(0),
+                self.request_hot_reset  .eq(0)
+            ]
 
         return m
